@@ -12,6 +12,7 @@ class P(piperun.PipeProperty):
     def relevant(self, p):
         return p['op'] != 'cycle'
 
+    views = ('direct', 'direct', 'copy', 'direct', 'freeze', 'direct', 'profiled', 'direct', 'direct', 'direct', 'direct')
     source_modes = ('pickle', 'pickle', 'wu', 'copy', 'pickle', 'from', 'from_dataset')
 
     def oracle(self, p, obs):
